@@ -65,6 +65,68 @@ A_LIFE = [
     "judged step by step by TLC with resynchronisation on the implementation's post-state",
 ]
 
+def c08(report, tier, seed):
+    from . import classify
+    cov = classify.run(report, tier, seed, ("classify_ok", "classify_same", "classify_contained"))
+    cov["trusted_base"] = TRUSTED[:2] + ["harness/classify.py render_doc (rendering of abstract documents)"]
+    return report.finish(cov, [
+        "documents with two recognised message elements are outside the claim ('its top-level message element')",
+        "16 message tags x {with children, childless}; roElementAction: 7 operations (5 + unknown + missing) x 4 target shapes "
+        "x 6 source shapes; foreign siblings / nested look-alikes before and after; 5 kinds of malformed text",
+        "each document classified from str, bytes and a file under warning filters default and error, and in a fresh "
+        "`python -W error` interpreter"])
+
+
+A_COLL = [
+    "collections: every ordered list (all permutations of all subsets up to MaxDocs=3/4) over a pool of 8 documents "
+    "{2 roCreate, 2 roDelete, ok, warn, fail, ok for another running order} with message ids of mixed width "
+    "{8,9,10,11,99,100,101,1000} x strict x allow_incomplete",
+    "each collection built through from_strings / from_files / from_s3 (in-memory fake of the boto3 paginator and "
+    "Object().get()), merged, compared with Expected() computed in TLA+ and with a hand fold over freshly parsed messages",
+    "acceptance additionally evaluated in a fresh `python -O` interpreter",
+]
+
+
+def coll_property(want, step_props=()):
+    def run(report, tier, seed):
+        from . import collection
+        cov = collection.run(report, tier, seed, want, step_props)
+        cov["trusted_base"] = TRUSTED + ["harness/collection.py FakeS3 (shape of boto3 responses)", "harness/tracer.py"]
+        return report.finish(cov, A_COLL)
+    return run
+
+
+def combine(covs):
+    out = {"states": 0, "transitions": 0, "traces_validated_against_impl": 0, "samples": [], "parts": {}}
+    for name, c in covs:
+        for k in ("states", "transitions", "traces_validated_against_impl"):
+            out[k] += c.get(k, 0)
+        out["samples"] += c.get("samples", [])[:2]
+        out["parts"][name] = {k: v for k, v in c.items() if k != "samples"}
+    return out
+
+
+def c12(report, tier, seed):
+    from . import classify, collection
+    covs = [("merge", pipeline.run_merge_check(report, fam(tier, story=STORY, item=ITEM, other=OTHER), seed, tier)),
+            ("classify", classify.run(report, tier, seed, ("classify_contained",))),
+            ("collection", collection.run(report, tier, seed, ("coll_contained",), step_props=("C12",)))]
+    cov = combine(covs)
+    cov["trusted_base"] = TRUSTED
+    return report.finish(cov, A_COMMON + A_COLL + ["only schema-shaped messages are judged (required tags present)",
+                                                   "well-formed documents of MC_classify: no built-in exception from classification",
+                                                   "non-strict collection merges always run to the end (also a TLC liveness property of MC_coll)"])
+
+
+def c07(report, tier, seed):
+    from . import collection
+    covs = [("life", pipeline.run_life_check(report, life_plans(tier), seed, tier)),
+            ("collection", collection.run(report, tier, seed, ("coll_completed",), step_props=("C07",)))]
+    cov = combine(covs)
+    cov["trusted_base"] = TRUSTED
+    return report.finish(cov, A_LIFE + A_COLL)
+
+
 REGISTRY = {
     "C01": merge_property(lambda t: fam(t, story=STORY), A_COMMON + [
         "compared through the story-ID sequence only (C01's lens); judged when all references resolve, "
@@ -82,9 +144,12 @@ REGISTRY = {
         "a step whose status is not ok must leave the abstract state AND str(ro) unchanged"]),
     "C06": merge_property(lambda t: fam(t, story=STORY, item=ITEM), A_COMMON + [
         "warnings = MosRoMgrWarning subclasses recorded with simplefilter('always')"]),
-    "C07": life_property(A_LIFE),
+    "C08": c08,
+    "C09": coll_property(("coll_steps", "coll_fold"), step_props=("C09",)),
+    "C10": coll_property(("coll_order", "coll_fold")),
+    "C11": coll_property(("coll_accept",)),
+    "C07": c07,
     "C13": life_property(A_LIFE),
     "C14": life_property(A_LIFE),
-    "C12": merge_property(lambda t: fam(t, story=STORY, item=ITEM, other=OTHER), A_COMMON + [
-        "only schema-shaped messages are judged (required tags present)"]),
+    "C12": c12,
 }
